@@ -1,5 +1,105 @@
+TB = ("Trusted: Lean 4.33 kernel (leanchecker re-check in the thorough tier); axioms propext, Classical.choice, Quot.sound only "
+      "(audited per theorem on every run); the hand-written model is tied to /repo by the correspondence check of the run "
+      "(differential testing through a line protocol: harness/impl.py + the compiled Lean driver), which can only see "
+      "divergences its generators reach. ")
+
+claim("C01",
+      "Lean 4 refinement proof: single-cycle model (Model.Rv) = independent BitVec-32 ISA specification (Spec.RvSpec), per instruction and for runs of any length; model tied to the code by differential runs",
+      "28 theorems (Props/C01.lean): exec_refines for every supported well-formed instruction and every state (registers, memory, pc, output, exit code, faults), x0, run_refines/sim_refines for every number of steps, done_iff, pc_normal, the ecall table clause by clause, print-string termination. Nothing is bounded. The correspondence check runs every mnemonic on boundary x random operands and generated programs with a snapshot after every step against the real single-stage simulation.",
+      TB + "Modelled rather than verified: fixedint 0.2.0 arithmetic, int(a/b) as truncated division on 32-bit operands, CPython int; ecall 2 float rendering is an opaque marker; CSR/FENCE/EBREAK execution excluded (as the property does).",
+      "DESIGN.md §8 C01, §13")
+claim("C02",
+      "Lean 4 proof of the data path (split implementation = behavior(), every instruction, every state) and — in progress — of the control refinement by completion functions; cycle-accurate correspondence of the pipeline model with the real pipeline",
+      "Proved: split_agrees and its companions (Props/C02Split.lean, 10 theorems): for every supported instruction and state the five split functions run back to back equal single-cycle execution incl. faults (this is where the repaired JALR defect lived). The control half (pipeline = iterated split step: stalls, flushes, ecall drain; Props/C02.lean) is being proved by completion functions; until it is complete the stall/flush/drain behaviour is tied only by the cycle-accurate correspondence (every latch field, stall bookkeeping and counter after every cycle on generated programs) and searched by the single-cycle-vs-five-stage oracle on the real code. See DESIGN.md §13 for the exact state.",
+      TB + "As C01. PARTIAL: clauses (b) control refinement, (c) progress are not yet theorems (DESIGN.md §13).",
+      "DESIGN.md §8 C02, §13")
+claim("C03",
+      "Lean 4 refinement proof: cached memory system = flat memory for every geometry, write policy and EVERY victim choice (policy-generic invariant proof); correspondence in forced-victim mode",
+      "22 theorems (Props/C03.lean): init/preload/reset invariants, read_refines, write_refines (WB and WT), history_refines for arbitrary operation lists and adversarial policy states, crossing and out-of-range accesses rejected with stored values unchanged, and the proved counterexample for block bits >= 13 (known finding F6). Correspondence: random and (thorough) exhaustive small-scope histories with a full dump of cache and backing store after every operation; the model is fed the victim the real policy chose, so the tie does not depend on LRU/PLRU details.",
+      TB + "Geometry hypothesis blkBits <= 12 is necessary (F6). List aliasing inside the Python cache is modelled by value.",
+      "DESIGN.md §8 C03")
+claim("C04",
+      "Lean 4 theorems on the assembler model (Model.Asm: transcription of the pyparsing grammar + the five passes) — back-end theorems in progress; correspondence of the whole assembler incl. front end on grammar-derived and fault-injected texts; denotational oracle",
+      "Currently proved in Props/C04.lean: see the file (back-end theorems about expansion, label binding and displacements are being proved; the front-end round trip is covered under C14). The model of the complete assembler (tokenizer incl. pyparsing's longest-match and case-folding quirks, segmenting, data, pseudo expansion, labels, instantiation, every exception with its line) is tied to the real parser on rendered abstract programs under independent spelling choices and on a fault-injection stream; an independent denotation of the documented syntax is the oracle.",
+      TB + "pyparsing 3.3.2 is modelled for the grammar subset used (Model.PP), not verified. PARTIAL until the back-end theorems land (DESIGN.md §13). Known finding F8 (labels named nop/ecall/ebreak).",
+      "DESIGN.md §8 C04, §13")
+claim("C05",
+      "Lean 4 theorems on the assembler model (layout recurrence, li/la arithmetic) — in progress; correspondence + execution oracle on all li boundary constants",
+      "Props/C05.lean (being extended): li/la value theorems for every constant, data layout recurrence and read-back through the C18 memory theorems. Correspondence: data images and variable addressing of rendered declaration lists, li constants over every low-12-bit boundary crossed with boundary high parts executed in the simulator, the help page's example program (read from /repo at run time).",
+      TB + "As C04. PARTIAL until the theorems land (DESIGN.md §13).",
+      "DESIGN.md §8 C05, §13")
+claim("C06",
+      "Lean 4 refinement proof: TOY model = fetch-execute reference machine over BitVec for runs of any length (IR invariant); correspondence on random self-modifying images",
+      "5 theorems (Props/C06.lean): toy_refines / toy_step_refines / toy_refines_program (any number of steps, any memory image), two cycles per instruction, a store into the program area is seen by the next fetch. Thorough tier sweeps all 2^16 instruction words on boundary operands as model validation.",
+      TB + "fixedint UInt16/UInt12 wrap-around modelled.",
+      "DESIGN.md §8 C06")
+claim("C07",
+      "Lean 4 theorems on the pipeline model (in progress: skeleton simulation) + cycle-accurate correspondence; independent documented-schedule reference as oracle",
+      "Currently the schedule clauses are tied by the cycle-accurate correspondence of Model.Pipe with the real pipeline (latch occupancy after every cycle) and by the implementation-level oracle, an independent reference of the documented schedule (harness/pipe_ref.py) compared on retire cycle per instruction, total cycles, the n+4 clause and the per-step cycle increment with miss penalties. Theorems in Props/C07.lean are listed in DESIGN.md §13.",
+      TB + "PARTIAL: the skeleton-simulation theorem is not complete (DESIGN.md §13).",
+      "DESIGN.md §8 C07, §13")
+claim("C08",
+      "Lean 4 theorems on the pipeline model with the interlock flag off (no ID stall ever) + correspondence with hazard detection disabled; independent interlock-free pipeline reference and nop-padding oracle",
+      "Proved: with the flag off the ID stage never raises a stall (Props/C08.lean). The stale-read semantics and the hazard-free clause are tied by the cycle-accurate correspondence with the flag off and searched with an independent interlock-free reference (harness/pipe_ref.py) and with nop-padded programs against single-cycle mode.",
+      TB + "PARTIAL: hazard_free_refines / pad_hazard_free depend on the C02 control proof (DESIGN.md §13).",
+      "DESIGN.md §8 C08, §13")
+claim("C09",
+      "Lean 4 proof: erasing data from the cache model commutes with every accepted operation of a tag-only reference cache (policy-generic), counters and penalties follow by induction; correspondence with the real policies",
+      "23 theorems (Props/C09.lean): erase_commutes_read/write/op, counters_refine for all histories and prefixes, penalty per counted miss, uncounted reads and direct writes leave counters untouched, reread_neutral (display re-read is a no-op), instances for LRU/PLRU, display_reread_harmless at instruction level; plus the proved necessity of policy idempotence for writes. Program-level equality of the counters in both modes is tied by correspondence and oracle (and follows from C02 once its control half is proved).",
+      TB + "blkBits <= 12 (F6).",
+      "DESIGN.md §8 C09")
 claim("C10",
-      "Lean 4 theorems on the LRU/PLRU model (induction over access histories) + correspondence of the model with replacement_strategies.py",
-      "Theorems in lean/ArchSim/Props/C10.lean hold for every associativity and every finite access history; the model is tied to the code by differential runs of random and (thorough) exhaustively enumerated reachable policy states.",
-      "Trusted: Lean kernel, the three standard axioms, the correspondence check (differential testing of Model.Repl against the real LRU/PLRU classes), CPython list semantics, math.log2 on powers of two.",
+      "Lean 4 proof by induction over access histories: LRU order = recency order, PLRU heap array = recursive tree; correspondence incl. exhaustive reachable-state enumeration",
+      "21 theorems (Props/C10.lean) for every associativity and every finite history: LRU state is a permutation sorted by last-access age, victim = oldest, ages consistent, idempotence; PLRU victim follows the tree, access sets the path bits away, frame, victim != accessed, idempotence; totality facts used by the cache proofs.",
+      TB + "math.log2 exact on powers of two, CPython list semantics.",
       "DESIGN.md §8 C10")
+claim("C11",
+      "Lean 4 invariant proof: every resident block equals the instruction-memory block (transparency), reset clears, fetch accounting = tag-only reference; correspondence with every cached block in the snapshot",
+      "13 theorems (Props/C11.lean): icache_transparent (all geometries, both policies, any pc), reset_clears, fetch_accounting and fetch_run_accounting, single-cycle accesses = executed instructions.",
+      TB,
+      "DESIGN.md §8 C11")
+claim("C12",
+      "Lean 4 invariant proof over arbitrary histories: WT backing = logical contents and resident = backing; WB backing lags only on resident blocks, eviction writes back; correspondence with dumps after every op",
+      "7 theorems (Props/C12.lean): wt_backing_current, wt_resident_backed, wt_state, wb_backing_lags_only_resident, eviction_preserves, eviction_writes_back, wb_write_not_lost.",
+      TB + "blkBits <= 12 (F6).",
+      "DESIGN.md §8 C12")
+claim("C13",
+      "Lean 4 theorems on the API models (Model.Sim, Model.Toy): done is a fixpoint, run = iterated step, reload = fresh load; correspondence on API histories with failing loads and calls after done",
+      "TOY part complete (Props/C13Toy.lean: done_stable, step_result, run_eq_iterate, empty_done, reload_fresh). RISC-V part (Props/C13.lean) being extended from done_step_noop to the full set incl. reload_fresh through the assembler model.",
+      TB + "PARTIAL for the RISC-V simulations until Props/C13.lean is complete (DESIGN.md §13).",
+      "DESIGN.md §8 C13, §13")
+claim("C14",
+      "Lean 4 round-trip theorem printer -> parser on the models (in progress) + correspondence; oracle = real repr through the real assembler",
+      "The printed form (Model.Rv Instr.repr) and the parser model are both tied to the code; the round-trip theorem over all registers, immediates and addresses is being proved (Props/C14.lean). The oracle assembles the real printed form at the same address and compares fields, and checks listing fix-points.",
+      TB + "PARTIAL until the round-trip theorem lands (DESIGN.md §13).",
+      "DESIGN.md §8 C14, §13")
+claim("C15",
+      "Lean 4 theorems on the assembler and simulation models: error values are parser errors with an existing line number / the memory error, faults carry the faulting instruction (in progress) + correspondence on fault-injected texts, token soups and faulting programs",
+      "In the models every exception is a value and there is no constructor for an ill-typed failure, so classification is by construction; the quantitative theorems (line number within the text and line text equal to that line, totality of the fuel-using scanners, run-time faults carry address and instruction of the raising stage) are being proved (Props/C15.lean). The correspondence compares error class, line number and line text on every fault-injected text and soup, RISC-V and TOY.",
+      TB + "Termination and exception-freedom of pyparsing itself are assumptions. PARTIAL until the theorems land (DESIGN.md §13).",
+      "DESIGN.md §8 C15, §13")
+claim("C16",
+      "Lean 4 erasure law over API histories + the cache-statistics lemma for display reads; the purity of the real getters is witnessed by the correspondence (model treats every inspection call as a no-op)",
+      "3 theorems (Props/C16.lean): inspect_irrelevant, views_repeatable, display_read_keeps_statistics (with C09's reread_neutral). In a functional model purity of views holds by construction, so the weight is carried by the correspondence: all real getters (tables, statistics, SVG update lists, metrics text) are called in random interleavings while the model ignores them; any mutation shows in the next deep snapshot; the oracle compares the run with and without the calls.",
+      TB + "Stated honestly: proof of the model-level statement plus differential validation that the implementation's getters are no-ops. Wall-clock fields of the metrics text are excluded.",
+      "DESIGN.md §8 C16")
+claim("C17",
+      "Lean 4 digit-string round-trip proofs for the formatter model, memory-table theorems (C18); correspondence exhaustive for 12/16 bits",
+      "14 theorems (Props/C17.lean) for every n >= 1 and every integer: bin/udec/hex/sdec denote the two's-complement value (independent digit evaluation), exact digit counts, upper-case hex, grouping from the right; memory-table keys/values in Props/C18.lean (reprKeys_*, reprEntries_*).",
+      TB + "str.format / str(int) of CPython modelled.",
+      "DESIGN.md §8 C17")
+claim("C18",
+      "Lean 4 proof: memory model = history-defined byte map, LE round trip, wrap aliasing, range errors, partial-write semantics; correspondence on histories around both ends of the range",
+      "48 theorems (Props/C18.lean) for every configuration, history, address and value, with RISC-V and TOY instances.",
+      TB + "fixedint UIntN construction = reduction modulo 2^N; dict as finite map.",
+      "DESIGN.md §8 C18")
+claim("C19",
+      "Lean 4 proofs: encode/decode round trips for all words (omega), TOY assembler placement theorems (in progress); correspondence of the TOY assembler model on grammar-derived and fault-injected texts, all 2^16 words in the thorough tier",
+      "Proved: decode_encode, encode_decode, decode_mod (all naturals). The assembler clauses (instruction i at address i, data downward from the top, label resolution, segment order, numerals) are being proved on Model.ToyAsm; meanwhile they are tied by correspondence and an independent denotation oracle.",
+      TB + "pyparsing modelled for the TOY grammar. PARTIAL for the assembler clauses until the theorems land (DESIGN.md §13).",
+      "DESIGN.md §8 C19, §13")
+claim("C20",
+      "Lean 4 normal-form theorem for arbitrary call sequences (state = half^k), classification of rejected calls, no-ops when done; correspondence on legal and illegal interleavings",
+      "7 theorems (Props/C20.lean): step_eq_halves, single_eq_due, inv_initial, call_classified, calls_normal_form, done_noop, three_styles_agree — state equality covers counters, markers and visualisation values.",
+      TB,
+      "DESIGN.md §8 C20")
